@@ -20,6 +20,8 @@ def main():
     ap.add_argument("-j", type=int, default=None)
     a = ap.parse_args()
     seed = int(os.environ.get("VERIF_SEED", "0"))
+    if a.tier == "thorough":
+        os.environ.setdefault("VERIF_SOLVER_TIMEOUT_MS", "900000")  # inherited by the worker processes
     prop = a.prop.upper()
     mod = importlib.import_module("checks." + prop.lower())
     if a.replay:
